@@ -13,3 +13,4 @@ def run(repo, res, tier):
     effects.rule_estate(repo, res, floor=2)
     effects.rule_alias(repo, res)
     effects.rule_globals(repo, res)
+    effects.rule_one_shot_iterators(repo, res)
